@@ -14,12 +14,19 @@ from __future__ import annotations
 
 import json
 import math
+import random
 from pathlib import Path
 
-from common import VERIF, Check, f2h, h2f, use_repo
+import sys
+
+from common import REPO, VERIF, Check, f2h, h2f, use_repo
+
+sys.path.insert(0, str(VERIF / "harness" / "translators"))
+import tr_options_c04c05 as tr_options  # noqa: E402
 
 TOL = 1e-10
 PSUM_TOL = 1e-12
+OBSERVED = []  # option/attribute disagreements of the object built last
 CLASS = {"const": "ConstantSiteModel", "inv": "InvariantSiteModel", "weibull": "WeibullSiteModel"}
 
 
@@ -82,7 +89,22 @@ def gen_case(rng, kind=None):
         c["S"] = 1
     if rng.random() < 0.6:
         add_updates(rng, c, rng.randint(1, 3))
+    c["route"] = gen_route(rng)
     return c
+
+
+def gen_route(rng, kind=None):
+    """how the object is built: positional constructor, keyword constructor (any keyword order, optional
+    parameters omitted or passed as explicit None), from_json through process_object (optional keys present only
+    when named, any key order, parameters inline or by reference, short or full type name), or the JSON the CLI emits"""
+    kind = kind or rng.choice(["ctor", "kw", "json", "json", "json", "cli"])
+    r = {"kind": kind, "order": rng.randrange(1000)}
+    if kind == "kw":
+        r["explicit_none"] = rng.random() < 0.5
+    if kind == "json":
+        r["form"] = rng.choice(["inline", "ref"])
+        r["fulltype"] = rng.random() < 0.3
+    return r
 
 
 GEN = {}
@@ -164,6 +186,100 @@ def run_impl(c):
         pars[name] = Parameter(name, tens(name, v))
         return pars[name]
 
+    def build():
+        """the object, through the construction route named by c['route']"""
+        route = c.get("route") or {"kind": "ctor"}
+        kind = route["kind"]
+        if kind == "cli" and c["kind"] == "weibull" and c["K"] == 1:
+            kind = "json"  # the CLI never emits a one-category Weibull model (it emits Constant/Invariant)
+        if kind == "ctor":
+            if c["kind"] == "const":
+                return ConstantSiteModel("sm", par("mu"))
+            if c["kind"] == "inv":
+                return InvariantSiteModel("sm", par("inv"), par("mu"))
+            return WeibullSiteModel("sm", par("shape"), c["K"], par("inv"), par("mu"))
+        if kind == "kw":
+            kw = {"id_": "sm"}
+            if c.get("mu") is not None or route.get("explicit_none"):
+                kw["mu"] = par("mu")
+            if c["kind"] == "inv":
+                kw["invariant"] = par("inv")
+            if c["kind"] == "weibull":
+                kw.update(parameter=par("shape"), categories=c["K"])
+                if c.get("inv") is not None or route.get("explicit_none"):
+                    kw["invariant"] = par("inv")
+            items = list(kw.items())
+            random.Random(route.get("order", 0)).shuffle(items)
+            cls = {"const": ConstantSiteModel, "inv": InvariantSiteModel, "weibull": WeibullSiteModel}[c["kind"]]
+            return cls(**dict(items))
+        # ---- from_json routes
+        from torchtree.core.utils import process_object
+
+        dic = {}
+        JSON_KEY = {"shape": "shape", "inv": "invariant", "mu": "mu"}
+
+        def pjson(name):
+            return {"id": "sm." + name, "type": "Parameter", "tensor": tens(name, c[name]).tolist()}
+
+        tname = CLASS[c["kind"]]
+        if kind == "cli":
+            from types import SimpleNamespace
+
+            from torchtree.cli import evolution as cli_evolution
+
+            arg = SimpleNamespace(categories=c.get("K", 1) if c["kind"] == "weibull" else 1,
+                                  invariant=c.get("inv") is not None,
+                                  model="SRD06" if c.get("mu") is not None else "JC69")
+            data = cli_evolution.create_site_model("sm", arg, w=pjson("mu") if c.get("mu") is not None else None)
+            if data.get("type") != tname:
+                raise RuntimeError(f"CLI emitted {data.get('type')} for a {tname} request")
+            for name in ("shape", "inv"):
+                if c.get(name) is not None:
+                    sub = data[JSON_KEY[name]]
+                    sub["tensor"] = tens(name, c[name]).tolist()
+                    sub["id"] = "sm." + name
+        else:
+            data = {"id": "sm", "type": ("torchtree.evolution.site_model." + tname) if route.get("fulltype") else tname}
+            if c["kind"] == "weibull":
+                data["categories"] = c["K"]
+            for name in ("shape", "inv", "mu"):
+                if c.get(name) is not None:
+                    if route.get("form") == "ref":
+                        process_object(pjson(name), dic)
+                        data[JSON_KEY[name]] = "sm." + name
+                    else:
+                        data[JSON_KEY[name]] = pjson(name)
+            items = list(data.items())
+            random.Random(route.get("order", 0)).shuffle(items)
+            data = dict(items)
+        m = process_object(json.loads(json.dumps(data)), dic)
+        for name in ("shape", "inv", "mu"):
+            if c.get(name) is not None:
+                pars[name] = dic["sm." + name]
+        return m
+
+    def observe(m):
+        """what the options name must be what the object holds (attributes read defensively)"""
+        bad = []
+        want_inv = c.get("inv") is not None
+        want_mu = c.get("mu") is not None
+        if hasattr(m, "_mu") and (m._mu is not None) != want_mu:
+            bad.append(f"mu {'given' if want_mu else 'absent'} but object holds mu={m._mu is not None}")
+        if want_mu and getattr(m, "_mu", None) is not None and not torch.equal(m._mu.tensor, tens("mu", c["mu"])):
+            bad.append("mu holds other values than given")
+        if c["kind"] != "const":
+            inv = getattr(m, "invariant", None)
+            if (inv is not None) != want_inv:
+                bad.append(f"invariant {'given' if want_inv else 'absent'} but object holds invariant={inv is not None}")
+            elif want_inv and not torch.equal(inv, tens("inv", c["inv"])):
+                bad.append("invariant holds other values than given")
+        if c["kind"] == "weibull":
+            if hasattr(m, "shape") and not torch.equal(m.shape, tens("shape", c["shape"])):
+                bad.append("shape holds other values than given")
+            if hasattr(m, "_categories") and m._categories != c["K"] + (1 if want_inv else 0):
+                bad.append(f"categories={m._categories} for K={c['K']}, invariant={want_inv}")
+        return bad
+
     def read(m, order):
         r = p = None
         for ch in order:
@@ -179,14 +295,11 @@ def run_impl(c):
 
     outs = []
     try:
-        if c["kind"] == "const":
-            m = ConstantSiteModel("sm", par("mu"))
-        elif c["kind"] == "inv":
-            m = InvariantSiteModel("sm", par("inv"), par("mu"))
-        else:
-            m = WeibullSiteModel("sm", par("shape"), c["K"], par("inv"), par("mu"))
+        m = build()
+        OBSERVED[:] = observe(m)
         outs.append(read(m, "rp"))
     except Exception as e:  # the implementation raised: an outcome to be judged, not a harness crash
+        OBSERVED[:] = []
         return [("raise", type(e).__name__, str(e)[:200])]
     for u in c.get("updates", []):
         try:
@@ -397,7 +510,13 @@ def run(ck: Check):
     ]
     ck.trusted += ["torch.log, torch.pow, torch.cat, sum, broadcasting (modelled, not verified)",
                    "libm exp/log/pow behind Lean Float (used to run the model only)"]
-    ok, broken = ck.lean_side({}, ["TTModel.C05_SiteModel", "TTProofs.Props.C05", "drv_c05"], "TTProofs/Props/C05.lean")
+    opt_src, opt_ok, opt_note, _ = tr_options.translate(REPO, "C05")
+    if not opt_ok:
+        ck.notes.append("options translator: " + opt_note)
+    ck.extra["options_translator_recognised_source"] = opt_ok
+    ok, broken = ck.lean_side({"TTGen/C05Options.lean": opt_src},
+                              ["TTModel.C05_SiteModel", "TTGen.C05Options", "TTProofs.Props.C05", "drv_c05"],
+                              "TTProofs/Props/C05.lean")
     drv = None
     try:
         drv = ck.driver("drv_c05")
@@ -449,6 +568,26 @@ def run(ck: Check):
                         ck.rng.shuffle(ups)
                         c["updates"] = ups
                         cases.append((c, "hgrid"))
+    # construction routes: every class x every subset of the optional keys x every route (two key orders)
+    for kind in ("const", "inv", "weibull"):
+        for has_inv in ((False, True) if kind == "weibull" else (kind == "inv",)):
+            for has_mu in (False, True):
+                for rkind, extra in (("kw", {"explicit_none": False}), ("kw", {"explicit_none": True}),
+                                     ("json", {"form": "inline", "fulltype": False}),
+                                     ("json", {"form": "ref", "fulltype": True}), ("cli", {})):
+                    for order in (0, 1):
+                        g = _gens(ck.rng)
+                        c = {"kind": kind, "S": 1}
+                        if kind == "weibull":
+                            c.update(K=ck.rng.randint(1, 8), shape=[g["shape"]()])
+                        if kind != "const":
+                            c["inv"] = [g["inv"]()] if has_inv else None
+                        c["mu"] = [g["mu"]()] if has_mu else None
+                        c["batch"] = {n: False for n in ("shape", "inv", "mu") if n in c}
+                        c["route"] = dict(kind=rkind, order=ck.rng.randrange(1000), **extra)
+                        if order and any(c.get(n) is not None for n in ("shape", "inv", "mu")):
+                            add_updates(ck.rng, c, 2)
+                        cases.append((c, "routes"))
     while len(cases) < n_cases:
         cases.append((gen_case(ck.rng), "random"))
 
@@ -459,6 +598,16 @@ def run(ck: Check):
         nonlocal unexpected
         outs = run_impl(c)
         unsupported = expected_unsupported(c)
+        rk = (c.get("route") or {"kind": "ctor"})["kind"]
+        ck.bucket("route=" + rk)
+        if OBSERVED and outs[0][0] == "ok":
+            ck.mismatch("object built through this route does not hold the options it was given",
+                        {"case": c, "observed": list(OBSERVED)})
+        if rk != "ctor" and outs[0][0] == "ok":
+            ref = run_impl({x: y for x, y in c.items() if x not in ("route", "updates")})[0]
+            if ref[0] != "ok" or ref[1] != outs[0][1] or ref[2] != outs[0][2]:
+                ck.mismatch("object built through this route evaluates differently from the constructor-built one",
+                            {"case": c, "route_built": outs[0][1:], "constructor_built": ref[1:]})
         for k, out in enumerate(outs):
             ck_ = state_at(c, k)
             hist = "/update:" + "+".join(sorted(c["updates"][k - 1]["set"])) if k else ""
